@@ -462,6 +462,7 @@ def run(ctx):
     found_input |= check_transforms(ctx, exe, n_tr)
     found_input |= check_sperm(ctx, exe)
     found_input |= check_involute(ctx, exe, 200 if quick else 4000)
+    found_input |= check_simplifier_chain(ctx, exe, 600 if quick else 8000)
     if not proofs_ok and not found_input:
         ctx.violation("proof-broken", "Properties_C12.v no longer checks", ctx.broken_proof, no_input=True)
     elif not proofs_ok:
@@ -691,7 +692,8 @@ def oracle_eval(ctx, case, impl, knife, spread, sense_knife, nspread):
         L = max(1.0, max(abs(x) for x in p))
         for x in roots:
             slack = 1e-7 * max(x, L * 1e-2) + (512 * spread[fin[0][0]] if fin else 0.0)
-            if x > 64 * EPS * L * 1e4 + slack and x < first - slack - 1e-7 * first:
+            bound = INF if first == INF else first - slack - 1e-7 * first     # (inf - inf would be NaN)
+            if x > 64 * EPS * L * 1e4 + slack and x < bound:
                 # a robust positive crossing nearer than anything reported
                 if x > 1e-6 * L or not (abs(float(fp)) <= noise):
                     return "missed nearer crossing at t = %.17g (first reported %r)" % (x, first), None
@@ -1076,5 +1078,127 @@ def check_involute(ctx, exe, n):
             found = True
             nbad += 1
             if nbad > 3:
+                break
+    return found
+
+
+def scaled_quadric(r, base, L, k, as_gq):
+    """the surface `base` written as a SimpleQuadric / GeneralQuadric with all coefficients multiplied by k"""
+    abc, cr, g, j = gq_form(base, gen_surface(r, base, L))
+    if as_gq:
+        return "gq", [float(x) * k for x in abc] + [float(x) * k for x in cr] + [float(x) * k for x in g] + [float(j) * k]
+    return "sq", [float(x) * k for x in abc] + [float(x) * k for x in g] + [float(j) * k]
+
+
+def check_simplifier_chain(ctx, exe, n):
+    """SurfaceSimplifier applied until nothing changes (as RecursiveSimplifier / the CSG builder do), on surfaces
+    with an arbitrary overall scale (1e-3..1e3, both signs) so that every Quadric{Plane,Sphere,Cyl,Cone}Converter
+    has to renormalise.  Oracles: (1) the final surface function is k * f with sign(k) = reported flip
+    (exact rational coefficients; snapping tolerance 1e-7 relative), (2) senses at random and near-surface points
+    agree up to the reported flip, (3) the model's chain gives the same surface."""
+    r = ctx.rng
+    TOL = 1e-10
+    cases = []
+    # corpus: degenerate quadric planes with a non-unit gradient (2x - 6 = 0 as SQ and as GQ)
+    cases.append(("sq", [0.0, 0.0, 0.0, 2.0, 0.0, 0.0, -6.0]))
+    cases.append(("gq", [0.0, 0.0, 0.0, 0.0, 0.0, 0.0, 0.1, 0.2, 0.2, -0.6]))
+    bases = ["p", "p", "px", "py", "pz", "s", "sc", "cx", "cy", "cz", "cxc", "czc", "kx", "ky", "kz"]
+    for i in range(n):
+        L = r.choice([1.0, 1.0, logu(r, -1, 1)])
+        k = r.choice([1, -1]) * r.choice([1.0, logu(r, -3, 3), logu(r, -3, 3)])
+        c = r.random()
+        if c < 0.75:
+            ty, d = scaled_quadric(r, bases[i % len(bases)], L, k, as_gq=r.random() < 0.4)
+        elif c < 0.85:
+            # general plane in all orientations / signs, tiny components, tiny displacement
+            nrm = unit(r)
+            if r.random() < 0.5:
+                nrm = [0.0, 0.0, 0.0]; nrm[r.randrange(3)] = r.choice([1.0, -1.0])
+            ty, d = "p", nrm + [r.choice([0.0, 1e-12, r.uniform(-2, 2) * L])]
+        elif c < 0.93:
+            q0 = gq_form(*(lambda b: (b, gen_surface(r, b, L)))(r.choice(["s", "cx", "kz", "p"])))
+            ty, d = "gq", [float(x) * k for x in gq_transform_exact(q0, rnd_rotation(r), rnd_pt(r, L))]
+        else:
+            ty = r.choice(["s", "cx", "cy", "cz", "kx", "px", "p"]); d = gen_surface(r, ty, L)
+            if ty != "p":
+                for jx in range(len(d) - 1 if ty != "px" else 1):
+                    if r.random() < 0.6:
+                        d[jx] = r.choice([0.0, 1e-12, -1e-12, -0.0])
+        cases.append((ty, d))
+    lines, allpts = [], []
+    for ty, d in cases:
+        L = 1.0
+        pts = [rnd_pt(r, 3 * L) for _ in range(5)] + [rnd_pt(r, 10 * L) for _ in range(2)]
+        for _ in range(5):
+            ps = on_surface_point(r, ty, d, L)
+            if ps is not None:
+                u3 = unit(r); dl = r.choice([0.01, 0.1, 0.5, 2.0]) * r.choice([1, -1])
+                pts.append([ps[k2] + dl * u3[k2] for k2 in range(3)])
+        allpts.append(pts)
+        lines.append("simplc %s %d %s %s %d %s" % (ty, len(d), hx(d), float(TOL).hex(), len(pts), " ".join(hx(p) for p in pts)))
+    rc, out = ctx.run_harness(exe, input="\n".join(lines) + "\n")
+    outl = out.strip().splitlines()
+    if rc != 0 or len(outl) != len(lines):
+        raise vlib.BuildError("surface harness failed on the simplifier chain rc=%d" % rc, out[-2000:])
+    mvals = ctx.coq_eval("simplc", PRE, ["run_simpl_chain %s %s" % (hexf(TOL), coq_surf(ty, d)) for ty, d in cases],
+                         chunk=min(300, max(20, len(cases) // 16 + 1)), timeout=1200)
+    found = False
+    nviol = 0
+    for (ty, d), pts, line, mv in zip(cases, allpts, outl, mvals):
+        tok = line.split()
+        if tok[0] != "ok":
+            ctx.count("harness-error:simplc")
+            continue
+        passes, flipped = int(tok[1]), int(tok[2])
+        ty2 = tok[3]; nd = int(tok[4]); d2 = [pf(t) for t in tok[5:5 + nd]]
+        rest = tok[5 + nd:]
+        ctx.case(("simplc", ty, d), nontrivial=passes > 0)
+        ctx.count("chain:%s->%s%s" % (ty, ty2, "(flip)" if flipped else ""))
+        replay = {"cmd": "simplify-chain", "surface": ty, "data": d, "tol": TOL,
+                  "impl": {"passes": passes, "flipped": flipped, "surface": ty2, "data": d2}, "model": mv}
+        bad = None
+        if any(x != x or abs(x) == INF for x in d2):
+            bad = "simplified surface has non-finite data %r" % d2
+        else:
+            # (1) coefficients: q1 = k q0, sign(k) = flip
+            q0 = gq_form(ty, d); q1 = gq_form(ty2, d2)
+            v0 = [float(x) for x in list(q0[0]) + list(q0[1]) + list(q0[2]) + [q0[3]]]
+            v1 = [float(x) for x in list(q1[0]) + list(q1[1]) + list(q1[2]) + [q1[3]]]
+            n00 = sum(x * x for x in v0)
+            kk = sum(a * b for a, b in zip(v0, v1)) / n00 if n00 > 0 else 0.0
+            dev = max(abs(b - kk * a) for a, b in zip(v0, v1))
+            s1 = max(abs(x) for x in v1)
+            if kk == 0 or dev > 1e-7 * s1 + 1e-9 * abs(kk):
+                bad = ("simplified surface is not a multiple of the original: best k = %.6g, max deviation %.3g (scale %.3g); "
+                       "original coefficients %r, simplified %r" % (kk, dev, s1, v0, v1))
+            elif (kk < 0) != bool(flipped):
+                bad = "simplifier reports flipped=%d but the surface function was multiplied by %.6g" % (flipped, kk)
+        # (2) senses
+        if bad is None:
+            q = gq_form(ty, d)
+            for k2, p in enumerate(pts):
+                so, sn = int(rest[2 * k2]), int(rest[2 * k2 + 1])
+                P = [Fr(x) for x in p]
+                fv = float(f_exact(q, P)); mg = f_mag(q, P)
+                gn = math.sqrt(sum(float(x) ** 2 for x in grad_exact(q, P)))
+                if abs(fv) > 1e-6 * mg + 1e-8 * gn and sn != (-so if flipped else so):
+                    bad = "simplifier chain changed the sense at %r: %d -> %d with flipped=%d" % (p, so, sn, flipped)
+                    replay["point"] = p
+                    break
+        if bad:
+            ctx.violation("oracle", "%s (%s -> %s)" % (bad, ty, ty2), replay)
+            found = True
+            nviol += 1
+            if nviol > 5:
+                break
+            continue
+        # (3) model
+        mpasses, mflip, (mcode, mdata) = mv
+        dsc = max([abs(x) for x in d2] + [1e-300])
+        if (mpasses != passes or bool(flipped) != mflip or TYPES[mcode] != ty2 or len(mdata) != len(d2)
+                or any(abs(a - b) > 1e-9 * abs(b) + 1e-12 * dsc for a, b in zip(mdata, d2))):
+            ctx.violation("correspondence", "simplifier chain: model and implementation differ (%s)" % ty, replay, no_input=True)
+            nviol += 1
+            if nviol > 5:
                 break
     return found
